@@ -20,6 +20,7 @@ let limbs_of (s : string) : ZZ.t list = List.map z_of_hex (String.split_on_char 
 let rec int_of_nat = function M.O -> 0 | M.S n -> 1 + int_of_nat n
 
 let fe l = M.fe_of_limbs_m (limbs_of l)
+let show_limbs (l : ZZ.t list) : string = match l with [] -> "-" | _ -> String.concat "," (List.map hex_of_z l)
 let show_pt (x, y) = "ok " ^ hex_of_z x ^ " " ^ hex_of_z y
 let show_jac ((x, y), z) = "ok " ^ hex_of_z x ^ " " ^ hex_of_z y ^ " " ^ hex_of_z z
 
@@ -44,13 +45,14 @@ let handle (f : string array) : string =
     show_outcome (fun ((d, (x, y)), consumed) ->
         Printf.sprintf "ok %s %s %s %d" (hex_of_z d) (hex_of_z x) (hex_of_z y) (int_of_nat consumed))
       (M.generateKey_model (bytes_of_hex f.(2)))
-  | "FM" -> "ok " ^ hex_of_z (M.mul_model (fe f.(2)) (fe f.(3)))
-  | "FS" -> "ok " ^ hex_of_z (M.square_model (fe f.(2)))
-  | "FA" -> "ok " ^ hex_of_z (M.addFe_model (fe f.(2)) (fe f.(3)))
-  | "FB" -> "ok " ^ hex_of_z (M.subFe_model (fe f.(2)) (fe f.(3)))
-  | "FF" -> "ok " ^ hex_of_z (M.fromBig_model (z_of_hex f.(2)))
-  | "FT" -> "ok " ^ hex_of_z (fe f.(2))
-  | "FR" -> "ok " ^ hex_of_z (M.reduceDegree_model (limbs_of f.(2)))
+  (* limb functions: the value-level model AND the limb-level model (exact words) *)
+  | "FM" -> "ok " ^ hex_of_z (M.mul_model (fe f.(2)) (fe f.(3))) ^ " " ^ show_limbs (M.sm2P256Mul_limbs (limbs_of f.(2)) (limbs_of f.(3)))
+  | "FS" -> "ok " ^ hex_of_z (M.square_model (fe f.(2))) ^ " " ^ show_limbs (M.sm2P256Square_limbs (limbs_of f.(2)))
+  | "FA" -> "ok " ^ hex_of_z (M.addFe_model (fe f.(2)) (fe f.(3))) ^ " " ^ show_limbs (M.sm2P256Add_limbs (limbs_of f.(2)) (limbs_of f.(3)))
+  | "FB" -> "ok " ^ hex_of_z (M.subFe_model (fe f.(2)) (fe f.(3))) ^ " " ^ show_limbs (M.sm2P256Sub_limbs (limbs_of f.(2)) (limbs_of f.(3)))
+  | "FF" -> "ok " ^ hex_of_z (M.fromBig_model (z_of_hex f.(2))) ^ " " ^ show_limbs (M.sm2P256FromBig_limbs (z_of_hex f.(2)))
+  | "FT" -> "ok " ^ hex_of_z (fe f.(2)) ^ " " ^ hex_of_z (M.sm2P256ToBig_limbs (limbs_of f.(2)))
+  | "FR" -> "ok " ^ hex_of_z (M.reduceDegree_model (limbs_of f.(2))) ^ " " ^ show_limbs (M.sm2P256ReduceDegree_limbs (limbs_of f.(2)))
   | "PD" -> show_jac (M.pointDouble_model ((fe f.(2), fe f.(3)), fe f.(4)))
   | "PM" -> show_jac (M.pointAddMixed_model ((fe f.(2), fe f.(3)), fe f.(4)) (fe f.(5)) (fe f.(6)))
   | "PP" -> show_jac (M.pointAdd_model ((fe f.(2), fe f.(3)), fe f.(4)) ((fe f.(5), fe f.(6)), fe f.(7)))
